@@ -434,7 +434,7 @@ DirectDataSurvives == [][extra' >= extra]_vars
 GrowRefreshes ==
     [][\A i \in 1..B : (res'[i] # res[i] /\ res'[i] \in OkTags) => res'[i] = OkTag]_vars
 FullGrowLeavesNothingStale ==
-    [][(\E S \in SUBSET (1..B) : GrowSet(S) /\ S = 1..B) /\ outcome' = "ok" => ~Stale']_vars
+    [][GrowSet(1..B) /\ outcome' = "ok" => ~Stale']_vars
 
 (* C12 *)
 DeleteOnlyAfterDelivery ==
